@@ -190,6 +190,20 @@ func (h *hist) update(off int64, w float64) {
 	ans := c.Do(op)
 	h.ops = append(h.ops, op)
 	cur := nsOf(h.sec, h.ns)
+	// the recorded assumption about math.Pow (an input of the model): 0 <= pow <= 1 whenever
+	// the reading is not before the previous one
+	if tp := nsOf(tPrev.Unix(), int64(tPrev.Nanosecond())); cur.Cmp(tp) >= 0 {
+		if !(pow >= 0 && pow <= 1) {
+			c.Fail("C19:assumption-pow", "math.Pow(0.999, dt) outside [0,1] for dt >= 0", []string{op}, map[string]any{"pow": bits(pow)})
+		}
+		if pow == 0 {
+			c.Count("pow:underflow-to-0")
+		} else if pow == 1 {
+			c.Count("pow:1")
+		} else {
+			c.Count("pow:in(0,1)")
+		}
+	}
 
 	newSeg := !h.started && h.clkEpoch != 0 || h.started && h.clkEpoch != h.epoch
 	first := !h.started || newSeg
@@ -281,7 +295,11 @@ func (h *hist) update(off int64, w float64) {
 			nAdj++
 			p := strings.Split(a[4:], ":")
 			o, d, fr := pi(p[0]), pi(p[1]), pf(p[2])
-			gap := new(big.Int).Sub(cur, h.prev)
+			prev := h.prev
+			if prev == nil { // an Adjust on the very first update: judged as a zero gap
+				prev = cur
+			}
+			gap := new(big.Int).Sub(cur, prev)
 			if gap.Cmp(maxI64Big) > 0 {
 				gap = maxI64Big // Time.Sub saturates
 				c.Count("adjust:gap-saturated")
@@ -306,12 +324,12 @@ func (h *hist) update(off int64, w float64) {
 				}
 				// d = ceil of the float64 dt, which is floor(gap) or ceil(gap) whole seconds
 				// (dt = float64(sec) + float64(nsec)/1e9 may round down to sec for gaps > 2^24 s)
-				lo := new(big.Int).Div(gap, bigSec)
-				if lo.Sign() == 0 {
-					lo.SetInt64(1)
-				}
-				lo.Mul(lo, bigSec)
+				// and it can round down only from 2^23 s on: below, nsec/1e9 >= 1e-9 exceeds half an ulp)
 				hi := new(big.Int).Mul(D, bigSec)
+				lo := new(big.Int).Set(hi)
+				if q := new(big.Int).Div(gap, bigSec); q.Cmp(big.NewInt(1<<23)) >= 0 {
+					lo.Mul(q, bigSec)
+				}
 				db := big.NewInt(d)
 				if new(big.Int).Sub(db, lo).Cmp(big.NewInt(-1024)) < 0 || new(big.Int).Sub(db, hi).Cmp(big.NewInt(1024)) > 0 {
 					fail("C19:adjust-duration-value", "Adjust duration is not ceil(dt) seconds", map[string]any{"duration": d, "ceil_dt": D.String()})
